@@ -28,7 +28,8 @@ MANIFEST = {
     "text": "Kernel-checked theorems over a model of _build_enum_type, EnumType.build_baseinttype and the value->name "
             "dictionary of b_new_enum_type against a specification of gcc's build_enumerator/finish_enum: whenever gcc accepts "
             "an enumerator list of any length (explicit values, implicit +1 runs, references to earlier enumerators) cffi gives "
-            "every enumerator gcc's value (values_eq_c, under C09's restriction on explicit expressions); cffi's underlying type "
+            "every enumerator gcc's value (values_eq_c; premise on each explicit expression: a bare literal, all-signed operands, "
+            "or no unsigned wrap-around -- C09's theorems); cffi's underlying type "
             "is exactly the one gcc's min-precision rule picks and cffi raises CDefError exactly when gcc has no type "
             "(base_eq_gcc, rejected_iff_gcc_rejects); ffi.string yields the first declared name or the decimal value "
             "(nameOf_first_declared); the (size, signed)->PRIM tables of recompiler.py and _cffi_include.h, re-extracted every "
@@ -50,8 +51,8 @@ ASSUMPTIONS = ["gcc 12 x86-64 LP64 is the C oracle (sizeof(int)=4, sizeof(long)=
 TRUSTED_EXTRA = ["translate/enum_prim.py (regex extraction of prim_index, _cffi_prim_int, primitive_name[], build_baseinttype candidates)"]
 
 CLASSES = {
-    # C09's known finding seen through an enumerator: an explicit value expression has an
-    # unsigned-typed operand and cffi computed the exact unbounded values
+    # C09's known finding seen through an enumerator: an explicit value expression is outside
+    # `exprOk` (it has an unsigned operation that wraps) and cffi computed the exact unbounded values
     # (or, when those exact values fit no 64-bit type, refused them with CDefError)
     "C10/unsigned-typed-enumerator-expression":
         lambda case: bool(case.get("unsigned_operand")) and (
